@@ -18,6 +18,7 @@ import (
 	"sort"
 	"sync"
 
+	"github.com/awslabs/ar-go-tools/internal/verifhook"
 	"golang.org/x/exp/constraints"
 )
 
@@ -101,6 +102,7 @@ func MapParallel[T any, S any](a []T, f func(T) S, numRoutines int) []S {
 		go func() {
 			defer wg.Done()
 			for x := range in {
+				verifhook.At("funcutil.MapParallel.worker")
 				out <- elt[S]{x.idx, f(x.x)}
 			}
 		}()
